@@ -1738,7 +1738,7 @@ pub fn sweep_stream(tier: crate::corpus::Tier, detectors: &[Detector], mode: Mod
 }
 
 pub fn sweep(c: &Corpus, detectors: &[Detector], mode: Mode) -> Sweep {
-    let items: Vec<(String, String, Vec<usize>)> = c
+    let mut items: Vec<(String, String, Vec<usize>)> = c
         .progs
         .iter()
         .map(|p| {
@@ -1746,6 +1746,20 @@ pub fn sweep(c: &Corpus, detectors: &[Detector], mode: Mode) -> Sweep {
             (p.tag.clone(), t, o)
         })
         .collect();
+    // every 8th program additionally under a CRLF layout with two tokens per line: the comparison is by
+    // anchor lines, so it is layout-independent, and a conversion that mishandles CR shows up here too
+    for (i, p) in c.progs.iter().enumerate() {
+        if i % 8 == 3 {
+            let mut t = String::new();
+            let mut o = Vec::with_capacity(p.toks.len());
+            for (k, tok) in p.toks.iter().enumerate() {
+                o.push(t.len());
+                t.push_str(tok);
+                t.push_str(if k % 2 == 1 { "\r\n" } else { " " });
+            }
+            items.push((format!("{}@crlf", p.tag), t, o));
+        }
+    }
     sweep_texts(&items, detectors, mode)
 }
 
